@@ -46,7 +46,24 @@ def class_days(quick, rnd):
 
 def diverse_population(date, rnd, tid):
     kinds = list(popgen.CANON)
-    k = tid % 4
+    k = tid % 5
+    if k == 4:
+        # the domain of the inputs that index parameter tables: every Mietstufe with a household of seven (tables by
+        # household size have a separate entry for "every further person"), every degree of disability step, old and young cohorts
+        fam7 = [popgen.rec(partner=2, spouse=2, gv=True), popgen.rec(partner=1, spouse=1, gv=True)] + [popgen.rec(age=24, e1=1, e2=2) for _ in range(5)]
+        P = popgen.compose([fam7] * 7 + [popgen.CANON["couple_married"]], date, rnd)
+        hhs = sorted({p["hh_id"] for p in P})
+        grades = [0, 20, 25, 30, 35, 40, 45, 50, 55, 60, 65, 70, 75, 80, 85, 90, 95, 100]
+        try:   # the Mietstufen that exist on this date (six before 2020, seven since): the columns of the one-person row
+            stufen = sorted(int(x) for x in gs.env(date)[0]["wohngeld"]["max_miete"][1])
+        except Exception:  # noqa: BLE001
+            stufen = [1, 2, 3, 4, 5, 6]
+        for j, p in enumerate(P):
+            p["mietstufe"] = stufen[hhs.index(p["hh_id"]) % len(stufen)]
+            p["behinderungsgrad"] = grades[j % len(grades)]
+        for p, a in zip(P[-2:], (95, 63)):
+            p.update({"alter": a, "geburtsjahr": gs.year_of(date) - a, "rentner": True, "jahr_renteneintr": gs.year_of(date) - a + 63, "bruttolohn_m": 0.0})
+        return gs.build_population(P, date), P
     if k == 0:
         structs = [popgen.CANON[x] for x in ("family_3", "single_parent_2", "pensioner" if False else "three_gen", "single")]
     elif k == 1:
@@ -171,7 +188,7 @@ def run(tier):
         eves = {datetime.date.fromordinal(datetime.date.fromisoformat(b).toordinal() - 1).isoformat() for b in boundaries}
         eves = {d for d in eves if d >= "2015-01-01"} | {boundaries[-1], "2015-01-01"}
         days = sorted(eves | set(rnd.sample(boundaries, min(8, len(boundaries)))))
-    outs = pool_map(day_job, [(d, rnd.randrange(1 << 30), 3 if quick else 12) for d in days])
+    outs = pool_map(day_job, [(d, rnd.randrange(1 << 30), 5 if quick else 15) for d in days])
     cases = [o[0] for o in outs]
     for c in cases:
         c.setdefault("reads", {"k": "reads", "day": 0, "iso": c["id"], "items": []})
